@@ -28,7 +28,7 @@ def scenarios(ctx):
         nonlocal k
         k += 1
         sc = dict(n=3, seed=seed + k, ops=6, opsafter=3, drop=0.0, dup=0.0, delay=0.0, crashnode=0, crashcycle=0,
-                  crashpoint="", crash2=0, restartpeers="all", snapshotat=0, partition=0, follower=False)
+                  crashpoint="", crash2=0, restartpeers="all", snapshotat=0, partition=0, follower=False, dropsnap=0)
         sc.update(kw)
         out.append(sc)
     # every boundary of the ready cycle x role x a few cycle numbers (RaftHost!CrashPts x Cycle)
@@ -47,6 +47,10 @@ def scenarios(ctx):
             partition=(i % 4) if i % 3 == 0 else 0, follower=True, ops=8)
     for i in range(3 if quick else 24):
         add(snapshotat=3, crashnode=-2 if i % 2 else -1, crashcycle=6 + i, crashpoint=["snapshot", "saved", "applied"][i % 3], ops=8, opsafter=4)
+    # a follower crashes early, the others compact their logs past it, the snapshot message that would
+    # bring it back is lost once or twice: it must still catch up
+    for i in range(3 if quick else 18):
+        add(snapshotat=7, crashnode=-2, crashcycle=1 + i % 3, crashpoint=["saved", "ready", "advanced"][i % 3], ops=8, opsafter=3, dropsnap=1 + i % 2)
     for i in range(2 if quick else 16):
         add(n=5, crashnode=-1 if i % 2 else -2, crashcycle=2 + i, crashpoint=POINTS[(3 * i) % len(POINTS)], crash2=1 + i % 5, ops=6)
     add(n=1, ops=4, opsafter=0)
